@@ -689,8 +689,12 @@ func (r *scanner) checkCompactRace(ctx context.Context, revision uint64, compact
 		// compact operation, just try to set the compact revision
 		// if it's error, try next time
 		// never lower it: an older compaction request must not re-open reads below the floor
-		if val, getErr := r.store.Get(ctx, r.config.CompactKey); getErr == nil && len(val) >= 8 &&
-			binary.BigEndian.Uint64(val) >= revision {
+		val, getErr := r.store.Get(ctx, r.config.CompactKey)
+		if getErr != nil && getErr != storage.ErrKeyNotFound {
+			// the record cannot be read now: leave it alone, it may hold a higher revision
+			return getErr
+		}
+		if len(val) >= 8 && binary.BigEndian.Uint64(val) >= revision {
 			return nil
 		}
 		bs := make([]byte, 8)
